@@ -4,7 +4,7 @@ import corelib
 META = {
     "technique": "TLC model checking of NsqdAbs (custody of every message copy); traces of a real in-process nsqd "
                  "(verif hooks + client-side observations, randomized concurrent publishers/consumers, queue "
-                 "configuration lattice) validated against NsqdAbs by TLC, with a drain-to-empty end condition",
+                 "configuration lattice) validated against NsqdAbs by TLC, with a drain-to-empty end condition; TLC (NsqdTopic: channelMap vs the pump's cached channel list, handshakes, PutMessage's read lock) with every interleaving of publish / channel creation / deletion and the pump's copy steps forced on the real daemon (gated replay)",
     "design_ref": "5/C01",
 }
 
@@ -12,6 +12,10 @@ META = {
 def run(ctx):
     import nsqdmc
     nsqdmc.model_check(ctx)
+    import tpairs
+    # binding A' at the topic level: NsqdTopic's interleavings of publish / channel creation / channel deletion with the
+    # message pump's copy steps, forced on the real daemon: every acknowledged message reaches every channel known then
+    tpairs.run_tpairs(ctx, "C01", only=lambda t: not ({"TEXIT", "TDELETE", "PAUSE", "UNPAUSE"} & set(t)) and t[3] != "paused")
     n = 16 if ctx.quick else 120
     corelib.run_modes(ctx, "C01", [("core", n), ("flow", n // 2), ("churn", n // 4), ("timing", n // 2)])
     if not ctx.quick:
